@@ -1,7 +1,8 @@
 (* Extract/C19.v — extraction of the sync model (ExtrOcamlBasic only; N stays Coq's binary N). *)
 Require Extraction.
 Require Import ExtrOcamlBasic.
-From Verif Require Import Common.Util Sync.Model.
+From Verif Require Import Common.Util Sync.Model Sync.ModelRPC.
 Extraction Language OCaml.
 Extraction "../oracle/c19/model.ml"
-  find_common_ancestor ov_of_chains ov_synth ancestor_fuel download_script decode_batch.
+  find_common_ancestor ov_of_chains ov_synth ancestor_fuel download_script decode_batch
+  serve mcode_eqb fetch_accept.
